@@ -318,6 +318,8 @@ def main(argv):
     if transitions == 0:
         print('HARNESS ERROR: vacuous run, no executions'); return 2
     if new:
+        bysig = collections.Counter((v.get('clause'), v.get('sig')) for v in new)
+        print('violations by (clause, sig) among the first %d kept: %s' % (len(new), dict(bysig)))
         for v, path in replays:
             print('  clause=%s sig=%s: %s' % (v.get('clause'), v.get('sig'), str(v.get('msg'))[:300].replace('\n', ' | ')))
             print('VIOLATION property=%s replay=%s' % (pid, path))
